@@ -296,7 +296,7 @@ def canonical_anticommutator(sites, a, i, b, j, D):
 
 
 # ------------------------------------------------------------------------------------------------
-def check_chain(ctx, res, chain, rng, nprng, use_model=True):
+def check_chain(ctx, res, chain, rng, nprng, use_model=True, first_terms=()):
     quick = ctx.quick
     try:
         sites = build_chain(chain)
@@ -312,6 +312,7 @@ def check_chain(ctx, res, chain, rng, nprng, use_model=True):
     orc = cc.ChainOracle(sites)
     D = orc.D
     pairs, multi = gen_terms(rng, sites, quick)
+    multi = [t for t in first_terms if all(0 <= i < L for _, i in t)] + multi
     res.count('chain.kind=' + chain['kind'])
     res.count('chain.L=%d' % L)
 
@@ -422,6 +423,52 @@ def check_chain(ctx, res, chain, rng, nprng, use_model=True):
                          rec['case'])
 
 
+def corr_case(res, chain, sites, orc, psi, vec, a1, a2, ask, records):
+    """one call of correlation_function(a1, a2) (names or lists of names) against the dense oracle"""
+    L = len(sites)
+    ops1 = [a1] * L if isinstance(a1, str) else list(a1)
+    ops2 = [a2] * L if isinstance(a2, str) else list(a2)
+    par1 = {word_is_odd(w) for w in ops1}
+    par2 = {word_is_odd(w) for w in ops2}
+    mixed = len(par1 | par2) > 1
+    case = {'part': 'chain-corr', 'chain': chain, 'ops1': a1, 'ops2': a2}
+    rec = dict(case=case, term=[a1, a2])
+    records.append(rec)
+    res.note_case(case, True)
+    res.count('corr.parity=%s%s' % ('o' if True in par1 else 'e', 'o' if True in par2 else 'e'))
+    ask('corr', len(records) - 1, {'k': 'corr', 'ops1': [a1] if isinstance(a1, str) else a1,
+                                   'ops2': [a2] if isinstance(a2, str) else a2,
+                                   'sites1': list(range(L)), 'sites2': list(range(L))})
+    try:
+        with warnings.catch_warnings():
+            warnings.simplefilter('ignore')
+            C = psi.correlation_function(a1, a2)
+        rec['corr'] = 'evaluated'
+    except ValueError as e:
+        C = None
+        rec['corr'] = 'ValueError'
+    if C is None:
+        if not mixed:
+            res.fail('property', 'chain.correlation_function.rejected', f'{a1},{a2} raised ValueError', case)
+        return
+    # dense fermionic values  <psi| A_i B_j |psi>
+    want = np.zeros((L, L), complex)
+    for i in range(L):
+        for j in range(L):
+            m, _ = orc.term([[ops1[i], i], [ops2[j], j]])
+            want[i, j] = np.vdot(vec, m @ vec)
+    if not np.all(np.abs(C - want) <= 1e-9):
+        if mixed:
+            res.fail('property', 'chain.correlation_function.autoJW.mixed-parity-evaluated',
+                     f'correlation_function({a1!r}, {a2!r}): one operator is fermionic, one is not (no consistent '
+                     f'Jordan-Wigner string exists); the call did not raise and returned values deviating by '
+                     f'{np.abs(C - want).max():.3g} from the dense fermionic expectation values', case)
+        else:
+            res.fail('property', 'chain.correlation_function.value',
+                     f'correlation_function({a1!r}, {a2!r}) deviates from dense Jordan-Wigner values by '
+                     f'{np.abs(C - want).max():.3g}', case)
+
+
 def check_mps(ctx, res, chain, sites, orc, psi, vec, rng, multi, ask, records):
     quick = ctx.quick
     L = len(sites)
@@ -488,41 +535,7 @@ def check_mps(ctx, res, chain, sites, orc, psi, vec, rng, multi, ask, records):
         uniform2 = len(set(ops2)) == 1 and rng.random() < 0.5
         a1 = ops1[0] if uniform1 else list(ops1)
         a2 = ops2[0] if uniform2 else list(ops2)
-        case = {'part': 'chain-corr', 'chain': chain, 'ops1': a1, 'ops2': a2}
-        rec = dict(case=case, term=[a1, a2])
-        records.append(rec)
-        res.note_case(case, True)
-        res.count('corr.parity=%s%s' % ('o' if odd1 else 'e', 'o' if odd2 else 'e'))
-        ask('corr', len(records) - 1, {'k': 'corr', 'ops1': [a1] if uniform1 else a1, 'ops2': [a2] if uniform2 else a2,
-                                       'sites1': list(range(L)), 'sites2': list(range(L))})
-        try:
-            with warnings.catch_warnings():
-                warnings.simplefilter('ignore')
-                C = psi.correlation_function(a1, a2)
-            rec['corr'] = 'evaluated'
-        except ValueError as e:
-            C = None
-            rec['corr'] = 'ValueError'
-        if C is None:
-            if odd1 == odd2:
-                res.fail('property', 'chain.correlation_function.rejected', f'{a1},{a2} raised ValueError', case)
-            continue
-        # dense fermionic values  <psi| A_i B_j |psi>
-        want = np.zeros((L, L), complex)
-        for i in range(L):
-            for j in range(L):
-                m, _ = orc.term([[ops1[i], i], [ops2[j], j]])
-                want[i, j] = np.vdot(vec, m @ vec)
-        if not np.all(np.abs(C - want) <= 1e-9):
-            if odd1 != odd2:
-                res.fail('property', 'chain.correlation_function.autoJW.mixed-parity-evaluated',
-                         f'correlation_function({a1!r}, {a2!r}): one operator is fermionic, one is not; the call did not '
-                         f'raise and returned values without the Jordan-Wigner string (max dev '
-                         f'{np.abs(C - want).max():.3g} from the dense fermionic value)', case)
-            else:
-                res.fail('property', 'chain.correlation_function.value',
-                         f'correlation_function({a1!r}, {a2!r}) deviates from dense Jordan-Wigner values by '
-                         f'{np.abs(C - want).max():.3g}', case)
+        corr_case(res, chain, sites, orc, psi, vec, a1, a2, ask, records)
 
     # --- apply_local_term with an open string (needs charge_to_JW_parity) and even terms
     c2 = all(getattr(s, 'charge_to_JW_parity', None) is not None for s in sites)
@@ -600,11 +613,32 @@ def run(ctx, use_model=True, n_chains=None):
 
 
 def run_case(ctx, case):
-    """replay of one stored case (re-runs the whole chain with a fixed rng; the term is added to the sample)"""
+    """replay of one stored case. `chain-corr`: exactly that correlation_function call on a fixed random state;
+    other chain cases: the chain is re-run with a fixed rng (the stored term is checked first)."""
     res = core.Result()
     rng = ctx.sub_rng('replay')
     nprng = np.random.default_rng(12345)
-    check_chain(ctx, res, case['chain'], rng, nprng, True)
+    if case.get('part') == 'chain-corr':
+        sites = build_chain(case['chain'])
+        orc = cc.ChainOracle(sites)
+        psi, vec = random_state(nprng, sites)
+        vec = mps_to_dense(psi)
+        njw = [NJW[s['cls']] for s in case['chain']['specs']]
+        lines, slots, records = [], [], []
+
+        def ask(what, key, line):
+            line['sites'] = njw
+            lines.append(line)
+            slots.append((what, key))
+        corr_case(res, case['chain'], sites, orc, psi, vec, case['ops1'], case['ops2'], ask, records)
+        for (what, key), ans in zip(slots, core.run_driver('C12', lines)):
+            res.traces_validated += 1
+            want = 'ValueError' if 'err' in ans else 'evaluated'
+            if records[key]['corr'] != want:
+                res.fail('correspondence', 'chain.corr-autoJW.model-vs-impl',
+                         f'impl {records[key]["corr"]} model {ans}', records[key]['case'])
+        return res
+    check_chain(ctx, res, case['chain'], rng, nprng, True, first_terms=[case['term']] if 'term' in case else [])
     return res
 
 
